@@ -262,7 +262,9 @@ impl Keyring {
                     return Err(KeyringError::ParseConfig("Duplicate Name found".into()));
                 }
 
-                let name = match cleaned_line.split_once('=') {
+                // Take the name from the original line: tab removal is only meant
+                // for the field syntax and must not alter a name with interior tabs.
+                let name = match line.split_once('=') {
                     Some((_, n)) => n.trim(),
                     None => {
                         return Err(KeyringError::ParseConfig(
